@@ -292,6 +292,28 @@ func evalC09(c c09Case, o *Obs) error {
 			}
 		}
 	}
+	// filters created afterwards start empty and are BIP37 filters of their own (no storage recycled from
+	// the filters used above, whether they were reloaded, unloaded or simply dropped)
+	for round := 0; round < 2; round++ {
+		nf := bloom.NewFilter(uint32(10+c.Len%50), c.Tweak, 0.01, wire.BloomUpdateType(c.Flags))
+		msg := nf.MsgFilterLoad()
+		if msg == nil || len(msg.Filter) == 0 {
+			break
+		}
+		if !allZero(msg.Filter) {
+			return fmt.Errorf("bloom.NewFilter created after %d operations on another filter starts with bits set: %x", len(c.Ops), clip(msg.Filter))
+		}
+		nm := newRefBloom(len(msg.Filter), msg.HashFuncs, c.Tweak, c.Flags)
+		item := []byte{byte(round), 0x42}
+		nf.Add(item)
+		nm.add(item)
+		if !bytes.Equal(nf.MsgFilterLoad().Filter, nm.bits) {
+			return fmt.Errorf("bloom.NewFilter created after other filters were used is not bit-exact BIP37: %x vs model %x", clip(nf.MsgFilterLoad().Filter), clip(nm.bits))
+		}
+		if round == 0 { // retire it in different ways before the next one is created
+			nf.Reload(wire.NewMsgFilterLoad(make([]byte, 4), 1, 0, wire.BloomUpdateNone))
+		}
+	}
 	if sawQueryAfter {
 		o.NT()
 	}
